@@ -15,6 +15,19 @@ CLAIMED = {
              "release profile (setter debug_assert!s off). Modelled, not verified: Place/Segment accessors as Lean functions.",
         technique="Lean 4 theorems (bv_decide bit lemmas + case analysis) + exhaustive model/impl correspondence",
         design="§4 C18"),
+    "C01": dict(
+        text="The library's only input that is not an argument is the order in which CARDINALS_VEC lists the graphemes. The model makes it an explicit "
+             "parameter; theorem render_order_irrelevant: for EVERY permutation of the grapheme table (= every possible hash seed) every word renders "
+             "the same, proved from canon_perm (sorting any two orders of a table with distinct keys gives one list: lexicographic order is total, "
+             "transitive, antisymmetric; mergeSort lemmas) and from two facts re-derived from the source on every run: the table's keys are distinct "
+             "(kernel-evaluated over 365 rows) and lib.rs sorts the vector (translator). Theorems also pin the complete list of hash-ordered iterations "
+             "and of statics in the library, so a new hidden input breaks the build. A pure function needs no further theorem in Lean: the remaining "
+             "claim (two calls / two processes agree) is checked by running 8 (thorough: 24) fresh processes on the whole segment space and generated runs.",
+        note="Trusted: Lean kernel, standard axioms; translator's reading of the CARDINALS_VEC initialiser and its grep for hash iteration/statics "
+             "(regex, declared); std's HashMap has no influence other than iteration order. The pinned tree violated the property (D1); repaired by a "
+             "fix: commit (known_findings.json, status fixed); seeded/C01-unsorted-cardinals reverts it and is detected.",
+        technique="Lean 4 theorem over all permutations of the table + source facts + multi-process search",
+        design="§4 C01"),
     "C04": dict(
         text="Machine-checked theorems about a line-by-line Lean model of SubRule::match_modifiers / Segment::apply_seg_mods: a binary feature "
              "matches iff present-and-equal (absent sub-node matches neither polarity), a whole binary matrix matches iff every named feature has "
@@ -40,6 +53,18 @@ CLAIMED = {
              "covered by the theorems.",
         technique="Lean 4 theorems over ported syll.rs + exhaustive table-model evaluation on impl",
         design="§4 C05"),
+    "C09": dict(
+        text="Proved: the renderer's exact-match phase returns a grapheme with the segment's bundle for any table order; every one of the 365 "
+             "graphemes, read by the modelled longest-match word parser, yields exactly its own bundle (kernel-evaluated over the regenerated "
+             "table, lifted by lemma), hence every base phone round-trips; table side conditions of the word syntax (no grapheme contains a digit, "
+             "boundary, length or stress mark; no diacritic begins a grapheme; diacritic characters distinct; tables well-formed). The model of "
+             "get_as_grapheme / Word::new is a line-by-line port compared with the code on ~55k operations per run (all distinct bundles reachable as "
+             "base, +1 diacritic, one-feature changes; thorough +2 diacritics), and the round trip itself is evaluated over that space on the implementation.",
+        note="NOT proved: parse(render(w)) = w for arbitrary diacritic stacks and arbitrary words (open; false on the current data for the bundles of the "
+             "known findings D9b/D9c - grapheme collisions). Defect D9a (prerequisites tested on the target) was repaired by a fix: commit. "
+             "Trusted: Lean kernel, standard axioms, translator (json tables), harness.",
+        technique="Lean 4 finite-table theorems + line-protocol correspondence + exhaustive round-trip search",
+        design="§4 C09"),
     "C10": dict(
         text="Theorems over an abstract-interpreter model of the runner (lib.rs:185-337), for rule lists and word lists of any length: "
              "applying G1++G2 is applying G1 then G2 (errors included), a result depends only on the flattened rule sequence (regrouping and "
